@@ -4,6 +4,7 @@ package engines
 
 import (
 	"fmt"
+	"runtime"
 	"strconv"
 	"sync"
 	"sync/atomic"
@@ -506,7 +507,6 @@ func e6RelistCase(seed uint64, n int) Case {
 	}}
 }
 
-
 // e6CatchUpCase: one subscriber falls behind until its buffer overruns and then
 // catches up in one go, at the very moment the library is handling the overrun
 // (the harness's logger holds that moment open).  The subscribers that keep up
@@ -620,6 +620,106 @@ func checkExactP(r *Res, prop, name string, got, sent []evrec) {
 	}
 }
 
+// e6MidFilteredCase: subscribers with an accept-all FILTER (SubscribeWithFilter,
+// CloneWithFilter + Subscribe) are created while another goroutine is
+// publishing without pause.  Such a subscriber starts from a copy of its
+// parent's content and must from then on see everything: whatever was
+// published after it was created is either in that copy or arrives as an
+// event.  At quiescence its view therefore equals the publisher's.
+func e6MidFilteredCase(seed uint64, n int, race bool) Case {
+	id := fmt.Sprintf("E6/filtered-subscribers-created-mid-stream/%d/%d/r%v", seed, n, race)
+	return Case{ID: id, Desc: map[string]interface{}{"seed": seed, "n": n, "race_mode": race, "what": "accept-all filtered subscribers created while events are being published"}, Bubble: true, Run: func(r *Res) {
+		rng := kit.NewRng(kit.Mix(seed, uint64(n)+6700))
+		var core *kit.Core
+		if !race {
+			core = kit.NewCore(&kit.Plan{Seed: rng.U64(), PYield: 300, PSleep: 20, MaxSleep: 30 * time.Microsecond})
+		}
+		g := newRootRig(core, nil)
+		defer g.stop(r, "C12")
+		u := smallUniverse()
+		g.root.MakeReady()
+		for i := 0; i < 4; i++ {
+			g.mutate(rng, u)
+		}
+		t := newTree(g.root.Publisher())
+		total := 0
+		var subs []*node
+		prng := rng.Fork(77)
+		judge := func() bool {
+			want, _ := cacheSnap(g.root.Cache().Reader())
+			for _, nd := range subs {
+				r.Add("mid-stream-filtered-subscriber-checks", 1)
+				if !isClosed(nd.cc.Ready()) {
+					r.V("C08", "not-ready", "%s (accept-all filter) on a ready publisher is not ready at quiescence", nd)
+					return false
+				}
+				got, err := cacheSnap(nd.cc.Cache())
+				if err != nil {
+					continue
+				}
+				if !got.Equal(want) {
+					r.V("C05", "events-missing", "%s (accept-all filter) was created while events were being published; at quiescence its view is %v, the publisher's is %v: an event published after it was created is neither in its initial copy nor was it delivered; its last events: %s", nd, got, want, tailEvents(nd.mir.events(), 6))
+					return false
+				}
+			}
+			return true
+		}
+		for burst := 0; burst < 40 && !r.Failed(); burst++ {
+			// 20 events per burst, a quiescence barrier between bursts: nobody's backlog
+			// comes near the buffer size
+			pubDone := make(chan error, 1)
+			go func() {
+				for i := 0; i < 20; i++ {
+					if _, err := g.mutate(prng, u); err != nil {
+						pubDone <- err
+						return
+					}
+					if i%3 == 0 {
+						runtime.Gosched()
+					}
+				}
+				pubDone <- nil
+			}()
+			for k := 0; k < 5+rng.Intn(3); k++ {
+				kind := []string{"subwf", "clonewf", "subwf"}[(burst+k)%3]
+				nd, err := t.addChild(t.root, kind, kit.TNull(), true)
+				if err != nil {
+					r.V("C05", "subscribe-error", "%s on a running publisher: %v", kind, err)
+					break
+				}
+				subs = append(subs, nd)
+				if kind == "clonewf" {
+					t.addChild(nd, "sub", nil, true)
+				}
+				for y := 0; y < rng.Intn(4); y++ {
+					runtime.Gosched()
+				}
+			}
+			if err := <-pubDone; err != nil {
+				r.V("C05", "publish-error", "%v", err)
+				return
+			}
+			total += 20
+			core.Barrier()
+			if !judge() {
+				return
+			}
+			if len(subs) > 12 {
+				// keep the fan-out small: close the oldest (they were checked at every barrier)
+				for _, nd := range subs[:len(subs)-4] {
+					nd.closer()
+				}
+				subs = subs[len(subs)-4:]
+				core.Barrier()
+			}
+		}
+		core.Barrier()
+		judge()
+		r.Key(id)
+		r.Sample = map[string]interface{}{"published": total, "subscribers": len(subs)}
+	}}
+}
+
 func init() {
 	register("E6", func(tier string, seed uint64) []Case {
 		var cases []Case
@@ -636,6 +736,9 @@ func init() {
 		}
 		for i := 0; i < tierPick(tier, 18, 1200); i++ {
 			cases = append(cases, e6CatchUpCase(seed, i))
+		}
+		for i := 0; i < tierPick(tier, 48, 3000); i++ {
+			cases = append(cases, e6MidFilteredCase(seed, i, i%2 == 1))
 		}
 		return cases
 	})
